@@ -11,6 +11,7 @@ import (
 	"pgregory.net/rapid"
 
 	"verif/harness/internal/ev"
+	"verif/harness/internal/gen"
 )
 
 func TestMain(m *testing.M) {
@@ -18,7 +19,7 @@ func TestMain(m *testing.M) {
 		Property: "C19", Level: "exploration", Exhaustive: true,
 		Rule: "exhaustive over leaf counts n=1..N (quick N=256, thorough N=3000; sharded by n) x every leaf index i, distinct 64-hex leaves; " +
 			"per (n,i): path by index and by leaf lookup verify against GetRoot and an independent root; the path is offered with every other leaf (n<=64) or 8 other leaves + a perturbed hash and must not verify; SetTree(GetTree) round trip. " +
-			"rapid adds leaf lists with duplicates. A case (n,i) is non-trivial when n=1 or n is not a power of two and the node on i's path is the duplicated last node of an odd level; distinct = distinct (n,i).",
+			"rapid adds leaf lists with duplicates and digest widths 8/64/96/128, and object histories: one MerkleTree object rebuilt with more, fewer or equally many leaves, paths by index and by lookup kept alive while further paths are requested and verified later against the root of the tree they came from (and refused for another leaf), export + load with the history continuing on the loaded object (non-trivial there = rebuilt with fewer leaves and several paths alive at once). A case (n,i) is non-trivial when n=1 or n is not a power of two and the node on i's path is the duplicated last node of an odd level; distinct = distinct (n,i).",
 		Assumptions: []string{"sha3-256 from golang.org/x/crypto is the reference hash", "leaf hashes are 64 lower-case hex characters (the domain the property names)"},
 	})
 	ev.Main(m)
@@ -321,5 +322,121 @@ func TestDuplicates(t *testing.T) {
 			}
 		}
 		ev.Case(fmt.Sprintf("dup%v", idx), dups > 0 && n&(n-1) != 0, "duplicates")
+	})
+}
+
+// One MerkleTree object over a history: rebuilt with more, fewer or equally many leaves, paths requested and kept
+// while further paths are requested, exported and loaded into another object on which the history continues.
+// Every path handed out must keep verifying its own leaf against the root of the tree it was produced from.
+func TestObjectHistory(t *testing.T) {
+	ev.Rapid(t, 600, 6000)
+	sizes := []int{1, 2, 3, 4, 5, 7, 8, 9, 16, 17, 31, 33, 37, 64, 100, 129}
+	rapid.Check(t, func(rt *rapid.T) {
+		type held struct {
+			leaf, root string
+			other      string // a different leaf of the same tree ("" if the tree had one leaf)
+			p          *util.MTPath
+			how        string
+		}
+		mt := &util.MerkleTree{}
+		var ls []string
+		var hs []util.Hashable
+		var root string
+		var helds []held
+		var log []string
+		built, shrunk, heldAcross, loaded := false, false, false, false
+		build := func(step int) {
+			n := gen.Pick(rt, sizes, "n")
+			if gen.Chance(rt, 30, "nuniform") {
+				n = gen.Uniform(rt, 1, 140, "nu")
+			}
+			if built && n < len(ls) {
+				shrunk = true
+			}
+			ls, hs = mkLeaves(n, uint64(1000+step))
+			mt.ComputeTree(hs)
+			built = true
+			root = mt.GetRoot()
+			log = append(log, fmt.Sprintf("build(%d)", n))
+			if want := refRoot(ls); root != want {
+				rt.Fatalf("%v: GetRoot() = %s, reference root of the %d leaves just built is %s", log, root, n, want)
+			}
+		}
+		verify := func(hd held, when string) {
+			if !util.VerifyMerklePath(hd.leaf, hd.p, hd.root) {
+				rt.Fatalf("%v: %s: the path produced earlier (%s) for leaf %s no longer verifies against the root of its tree", log, when, hd.how, hd.leaf[:8])
+			}
+			if !refVerify(hd.leaf, hd.p.Nodes, hd.p.LeafIndex, hd.root) {
+				rt.Fatalf("%v: %s: the path produced earlier (%s) fails the reference verifier", log, when, hd.how)
+			}
+			if hd.other != "" && util.VerifyMerklePath(hd.other, hd.p, hd.root) {
+				rt.Fatalf("%v: %s: the path of leaf %s verifies another leaf", log, when, hd.leaf[:8])
+			}
+		}
+		build(0)
+		for step := 1; step <= gen.Uniform(rt, 3, 16, "steps"); step++ {
+			switch k := gen.Pct(rt, "op"); {
+			case k < 18:
+				build(step)
+			case k < 60:
+				i := gen.Uniform(rt, 0, len(ls)-1, "i")
+				if gen.Chance(rt, 35, "edge") {
+					i = gen.Pick(rt, []int{0, len(ls) - 1, len(ls) / 2}, "ie")
+				}
+				hd := held{leaf: ls[i], root: root}
+				if len(ls) > 1 {
+					hd.other = ls[(i+1+gen.Uniform(rt, 0, len(ls)-2, "o"))%len(ls)]
+				}
+				if gen.Chance(rt, 50, "byindex") {
+					hd.p, hd.how = mt.GetPathByIndex(i), fmt.Sprintf("GetPathByIndex(%d) of %d", i, len(ls))
+				} else {
+					hd.p, hd.how = mt.GetPath(hs[i]), fmt.Sprintf("GetPath(leaf %d) of %d", i, len(ls))
+				}
+				log = append(log, hd.how)
+				if len(helds) > 0 {
+					heldAcross = true
+				}
+				helds = append(helds, hd)
+				if gen.Chance(rt, 40, "now") {
+					verify(hd, "at once")
+				}
+			case k < 85:
+				if len(helds) > 0 {
+					verify(gen.Pick(rt, helds, "held"), "later")
+				}
+			default:
+				tree := append([]string(nil), mt.GetTree()...)
+				mt2 := &util.MerkleTree{}
+				if err := mt2.SetTree(len(ls), tree); err != nil {
+					rt.Fatalf("%v: SetTree(GetTree()) of a tree of %d leaves: %v", log, len(ls), err)
+				}
+				if mt2.GetRoot() != root {
+					rt.Fatalf("%v: root after export and load differs", log)
+				}
+				log = append(log, "export+load")
+				if gen.Chance(rt, 60, "continue-on-loaded") {
+					mt = mt2
+					loaded = true
+				}
+			}
+		}
+		for _, hd := range helds {
+			verify(hd, "at the end")
+		}
+		nt := shrunk && heldAcross
+		cls := []string{"object-history"}
+		if shrunk {
+			cls = append(cls, "rebuilt-with-fewer-leaves")
+		}
+		if heldAcross {
+			cls = append(cls, "several-paths-alive")
+		}
+		if loaded {
+			cls = append(cls, "continued-on-loaded-object")
+		}
+		ev.Case(fmt.Sprint(log), nt, cls...)
+		if nt && ev.WantSample() {
+			ev.Sample(map[string]any{"history": log})
+		}
 	})
 }
